@@ -1,21 +1,38 @@
 #!/usr/bin/env python3
-"""tools/keep_seed.py <PROP> <k> <seed-id> '<needs>' '<caught-by>' : copy an
-independently produced, self-confirmed breaking change into /verif/seeded."""
-import json, os, shutil, sys
+"""tools/keep_seed.py <PROP> <k> <seed-id> '<needs>' '<check result>' [tests...]:
+confirm (demo passes without / fails with the change, in the scratch worktree
+/tmp/wt_<PROP>) and copy an independently produced breaking change into
+/verif/seeded/<seed-id>."""
+import json, os, shutil, subprocess, sys
 prop, k, sid, needs, caught = sys.argv[1:6]
-src = f"/tmp/seed/{prop}/out"
+tests = sys.argv[6:]
+wt = f"/tmp/wt_{prop}"
+src = f"{wt}/_seed/{k}"
+env = dict(os.environ, PYTHONPATH=f"{wt}/src", PSYCLONE_CONFIG=f"{wt}/config/psyclone.cfg")
+def run(*a):
+    return subprocess.run(["/venv/bin/python", *a], cwd=wt, env=env, capture_output=True, text=True)
+subprocess.run(["git", "checkout", "-q", "--", "src"], cwd=wt)
+r0 = run(f"{src}/demo.py").returncode
+subprocess.run(["git", "apply", f"{src}/patch.diff"], cwd=wt, check=True)
+r1 = run(f"{src}/demo.py").returncode
+tline = "not re-run (agent's full-suite run in notes.md)"
+if tests:
+    t = run("-m", "pytest", "-q", "-p", "no:cacheprovider", "-n", "6", *tests)
+    tline = (t.stdout.strip().splitlines() or ["?"])[-1]
+subprocess.run(["git", "checkout", "-q", "--", "src"], cwd=wt)
+print("demo without:", r0, " with:", r1, " tests:", tline)
+if r0 != 0 or r1 == 0:
+    sys.exit("NOT CONFIRMED")
 dst = f"/verif/seeded/{sid}"
 os.makedirs(dst, exist_ok=True)
-shutil.copy(f"{src}/patch_{k}.diff", f"{dst}/patch.diff")
-shutil.copy(f"{src}/demo_{k}.py", f"{dst}/demo.py")
-if os.path.exists(f"{src}/notes_{k}.md"):
-    shutil.copy(f"{src}/notes_{k}.md", f"{dst}/notes.md")
-meta = {"property": prop, "seed": sid,
-        "needs_to_manifest": needs,
+for f in ("patch.diff", "demo.py", "notes.md"):
+    if os.path.exists(f"{src}/{f}"):
+        shutil.copy(f"{src}/{f}", f"{dst}/{f}")
+meta = {"property": prop, "seed": sid, "needs_to_manifest": needs,
         "produced_by": "independent sub-agent given only the property text and a scratch worktree",
-        "confirmed": {"demo_without_change": "exit 0", "demo_with_change": "exit 1",
-                      "tests_with_change": "relevant test directories pass (see notes.md for the full-suite run)"},
-        "ran": [f"tools/confirm_seed.sh <worktree> patch.diff demo.py <tests>",
+        "confirmed": {"demo_without_change": f"exit {r0}", "demo_with_change": f"exit {r1}",
+                      "tests_with_change": tline},
+        "ran": ["tools/keep_seed.py (demo with/without the change in the scratch worktree)",
                 f"tools/try_seed.sh {prop} seeded/{sid}/patch.diff"],
         "check_result": caught}
 json.dump(meta, open(f"{dst}/meta.json", "w"), indent=1)
